@@ -116,7 +116,7 @@ func genDelta(t *rapid.T, maxJump int, label string) int64 {
 	}
 }
 
-var proofMangles = []string{"empty", "drop", "dup", "flip", "extra", "swap", "short", "long", "random", "replay", "othersizes", "otherbranch", "nil"}
+var proofMangles = []string{"empty", "drop", "dup", "flip", "extra", "swap", "short", "long", "random", "replay", "othersizes", "otherbranch", "nil", "many", "padded"}
 
 func genBadProof(t *rapid.T, nbranches int, noReplay ...bool) ProofSpec {
 	k := rapid.SampledFrom(proofMangles).Draw(t, "mangle")
@@ -407,7 +407,8 @@ func genOp(t *rapid.T, p Profile, w map[string]int, i, nlogs, nb, nwk int) Op {
 			op.Cp.Root = "rand"
 			op.Cp.RootTag = rapid.IntRange(0, 3).Draw(t, "mmtag")
 		}
-		op.Proof.Kind = rapid.SampledFrom([]string{"empty", "correct", "random"}).Draw(t, "mmproof")
+		op.Proof.Kind = rapid.SampledFrom([]string{"empty", "correct", "random", "many"}).Draw(t, "mmproof")
+		op.Proof.I = rapid.IntRange(0, 12).Draw(t, "mmpi")
 	case "echo":
 		// hand the witness back exactly what it returned (its own cosigned note), as a
 		// refresh, with or without a proof
@@ -417,7 +418,7 @@ func genOp(t *rapid.T, p Profile, w map[string]int, i, nlogs, nb, nwk int) Op {
 		}
 		op.Cp.ReplayOut = true
 		op.Old = SizeSpec{Rel: "cur"}
-		op.Proof = ProofSpec{Kind: rapid.SampledFrom([]string{"empty", "random", "replay", "extra", "correct"}).Draw(t, "echoproof"), I: rapid.IntRange(0, 5).Draw(t, "echopi"), J: rapid.IntRange(0, 255).Draw(t, "echopj")}
+		op.Proof = ProofSpec{Kind: rapid.SampledFrom([]string{"empty", "random", "replay", "extra", "correct", "many"}).Draw(t, "echoproof"), I: rapid.IntRange(0, 5).Draw(t, "echopi"), J: rapid.IntRange(0, 255).Draw(t, "echopj")}
 	case "tofufork":
 		// a validly signed checkpoint of another branch presented as if it were first use
 		op.Cp.Branch = rapid.IntRange(0, nb-1).Draw(t, "tfbranch")
